@@ -795,6 +795,52 @@ func (a *An) reflElem(et types.Type, cell string, exportedOnly bool, seen map[st
 	}
 }
 
+func isEmptyInterface(t types.Type) bool {
+	i, ok := t.Underlying().(*types.Interface)
+	return ok && i.NumMethods() == 0
+}
+
+// fmtCells: what fmt's %v reads when handed a value of static type t as `any`: for a pointer to a module struct
+// every leaf field of the struct (value-nested structs expanded, unexported fields included) and the contents of
+// its map / slice fields; pointers inside are printed as addresses and not followed.  A module interface stands
+// for every module pointer type implementing it.
+func (a *An) fmtCells(t types.Type) []string {
+	var res []string
+	switch u := t.Underlying().(type) {
+	case *types.Pointer:
+		if !isModuleStruct(u.Elem()) {
+			return nil
+		}
+		var walk func(st types.Type, prefix string)
+		walk = func(st types.Type, prefix string) {
+			s := st.Underlying().(*types.Struct)
+			for i := 0; i < s.NumFields(); i++ {
+				f := s.Field(i)
+				cell := prefix + "." + f.Name()
+				if isModuleStruct(f.Type()) {
+					walk(f.Type(), cell)
+					continue
+				}
+				res = append(res, cell)
+				switch f.Type().Underlying().(type) {
+				case *types.Map, *types.Slice:
+					res = append(res, cell+"[]")
+				}
+			}
+		}
+		walk(u.Elem(), typeName(u.Elem()))
+	case *types.Interface:
+		if n, ok := t.(*types.Named); ok && n.Obj().Pkg() != nil && inModulePath(n.Obj().Pkg().Path()) {
+			for _, mt := range a.modTypes {
+				if _, isPtr := mt.(*types.Pointer); isPtr && types.Implements(mt, u) {
+					res = append(res, a.fmtCells(mt)...)
+				}
+			}
+		}
+	}
+	return res
+}
+
 func reflSink(full string) (isSink bool, exportedOnly bool) {
 	switch {
 	case strings.HasPrefix(full, "github.com/qdm12/reprint."):
@@ -981,6 +1027,16 @@ func (a *An) analyze(fn *ssa.Function) *fnInfo {
 			case *ssa.MakeInterface:
 				if _, ok := x.X.Type().Underlying().(*types.Map); ok { // handed to fmt-style formatting: contents are read
 					add(a.contents(x.X, newCtx()), "R", a.posOf(instr, x.X), al, nil, true)
+				}
+				// a pointer to a module struct converted to `any` (argument of ui.Warning / fmt.Sprintf / ...): %v walks
+				// the struct by reflection - every field, exported or not, is read without any lock
+				if _, fresh := x.X.(*ssa.Alloc); !fresh && isEmptyInterface(x.Type()) {
+					add(uniq(a.fmtCells(x.X.Type())), "R", a.posOf(instr, x.X), al, nil, true)
+				}
+			case *ssa.ChangeInterface:
+				// the same for a module interface value (sensors.Sensor, fans.Fan, ...) converted to `any`
+				if isEmptyInterface(x.Type()) {
+					add(uniq(a.fmtCells(x.X.Type())), "R", a.posOf(instr, x.X), al, nil, true)
 				}
 			}
 			var cc *ssa.CallCommon
